@@ -97,13 +97,13 @@ func Spec() *run.Spec {
 		Phases: []run.Phase{
 			{Name: "mesh-rt", Cases: func(t string) int {
 				if t == "thorough" {
-					return 600000
+					return 250000
 				}
 				return 8000
 			}, Run: meshRT, Batch: 100, CPUBudgetS: 20},
 			{Name: "bytes-rt", Cases: func(t string) int {
 				if t == "thorough" {
-					return 400000
+					return 150000
 				}
 				return 6000
 			}, Run: bytesRT, Batch: 100, CPUBudgetS: 20},
@@ -115,7 +115,7 @@ func Spec() *run.Spec {
 			}, Run: large, Batch: 2, CPUBudgetS: 120},
 			{Name: "fault-sequences", Cases: func(t string) int {
 				if t == "thorough" {
-					return 60000
+					return 25000
 				}
 				return 2500
 			}, Run: faultSequences, Batch: 100, CPUBudgetS: 20},
